@@ -5,6 +5,7 @@ from ..e1 import Harness
 PROP_ID = "C04"
 FEATURE = "c04"
 ENGINE = "E1 kani-cbmc"
+QUICK_MAX_S = 125
 FUNCTIONS = ["edp_client::state_machine::HandshakeStateMachine::{begin_connect, prepare_send_name, handle_status, prepare_complement, "
              "handle_challenge, prepare_challenge_reply, handle_challenge_ack, disconnect, state, negotiated_flags}",
              "handshake.rs SendName::encode_old, StatusMessage::decode, Challenge::decode, ChallengeReply::{new,encode}, ChallengeAck::{decode,verify}"]
